@@ -164,6 +164,7 @@ func request(useTLS bool, port int, host string, site int, style string, splitMs
 		return -1, "connect: " + err.Error()
 	}
 	defer tcp.Close()
+	defer srv.NoLinger(tcp) // no TIME_WAIT pile-up from thousands of fresh connections
 	tcp.SetDeadline(time.Now().Add(30 * time.Second))
 	conn := tcp
 	if useTLS {
